@@ -9,30 +9,43 @@ import (
 	"time"
 )
 
-// Solver wraps one persistent `z3 -in` process.
+// Solver wraps one persistent SMT solver process (cvc5 or z3) speaking SMT-LIB2 on stdin/stdout.
 type Solver struct {
-	cmd        *exec.Cmd
-	in         io.WriteCloser
-	out        *bufio.Reader
-	declared   map[string]bool
-	Queries    int
-	Time       time.Duration
-	Sat        int
-	Unsat      int
-	Unknown    int
-	log        io.Writer
-	lastPushed bool
-	Slowest    time.Duration
-	SlowQ      string
-	Hist       [6]int
+	Kind      string // "cvc5" | "z3"
+	timeoutMs int
+	cmd       *exec.Cmd
+	in        io.WriteCloser
+	lines     chan string
+	declared  map[*Term]bool
+	ufs       map[string]bool
+	pushed    int
+	dead      bool
+
+	Queries  int
+	Time     time.Duration
+	Sat      int
+	Unsat    int
+	Unknown  int
+	Restarts int
+	Slowest  time.Duration
+	SlowQ    string
+	Hist     [6]int
+	Errors   []string
+	logw     io.Writer
 }
 
-func NewSolver(timeoutMs int) *Solver {
+func NewSolver(kind string, timeoutMs int) *Solver {
+	s := &Solver{Kind: kind, timeoutMs: timeoutMs}
+	s.start()
+	return s
+}
+
+func (s *Solver) start() {
 	var cmd *exec.Cmd
-	if useCVC5 {
-		cmd = exec.Command("cvc5", "--incremental", "--strings-exp", "--produce-models", "--lang", "smt2", fmt.Sprintf("--tlimit-per=%d", timeoutMs))
+	if s.Kind == "cvc5" {
+		cmd = exec.Command("cvc5", "--incremental", "--strings-exp", "--produce-models", "--lang", "smt2", fmt.Sprintf("--tlimit-per=%d", s.timeoutMs))
 	} else {
-		cmd = exec.Command("z3", "-in", fmt.Sprintf("-t:%d", timeoutMs))
+		cmd = exec.Command("z3", "-in", fmt.Sprintf("-t:%d", s.timeoutMs))
 	}
 	in, _ := cmd.StdinPipe()
 	outp, _ := cmd.StdoutPipe()
@@ -40,74 +53,138 @@ func NewSolver(timeoutMs int) *Solver {
 	if err := cmd.Start(); err != nil {
 		panic(err)
 	}
-	return &Solver{cmd: cmd, in: in, out: bufio.NewReader(outp), declared: map[string]bool{}}
+	s.cmd, s.in = cmd, in
+	ch := make(chan string, 64)
+	s.lines = ch
+	go func() {
+		r := bufio.NewReaderSize(outp, 1<<16)
+		for {
+			line, err := r.ReadString('\n')
+			if line != "" {
+				ch <- strings.TrimSpace(line)
+			}
+			if err != nil {
+				close(ch)
+				return
+			}
+		}
+	}()
+	s.declared = map[*Term]bool{}
+	s.ufs = map[string]bool{}
+	s.pushed = 0
+	s.dead = false
+	s.preamble()
 }
 
-func (s *Solver) send(line string) {
-	if s.log != nil {
-		fmt.Fprintln(s.log, line)
-	}
-	io.WriteString(s.in, line+"\n")
-}
-
-func (s *Solver) Reset() {
-	s.send("(reset)")
-	if useCVC5 {
-		s.send("(set-logic QF_SLIA)")
+func (s *Solver) preamble() {
+	s.send("(set-option :global-declarations true)")
+	if s.Kind == "cvc5" {
+		s.send("(set-logic QF_UFSLIA)")
 	} else {
 		s.send("(set-option :produce-models true)")
 	}
-	s.declared = map[string]bool{}
+}
+
+func (s *Solver) restart() {
+	s.Restarts++
+	if s.cmd != nil && s.cmd.Process != nil {
+		s.cmd.Process.Kill()
+		go s.cmd.Wait()
+	}
+	s.start()
+}
+
+func (s *Solver) send(line string) {
+	if s.logw != nil {
+		fmt.Fprintln(s.logw, line)
+	}
+	if _, err := io.WriteString(s.in, line+"\n"); err != nil {
+		s.dead = true
+	}
+}
+
+// Reset clears all assertions and declarations.
+func (s *Solver) Reset() {
+	if s.dead {
+		s.restart()
+		return
+	}
+	s.send("(reset)")
+	s.declared = map[*Term]bool{}
+	s.ufs = map[string]bool{}
+	s.pushed = 0
+	s.preamble()
+}
+
+func sortName(so Sort) string {
+	switch so {
+	case SStr:
+		return "String"
+	case SInt:
+		return "Int"
+	}
+	return "Bool"
 }
 
 func (s *Solver) declare(t *Term) {
-	vs := map[string]*Term{}
-	t.vars(vs)
-	for _, n := range sortedVarNames(vs) {
-		if s.declared[n] {
+	for _, v := range t.vs {
+		if s.declared[v] {
 			continue
 		}
-		s.declared[n] = true
-		v := vs[n]
-		switch v.Sort {
-		case SStr:
-			s.send(fmt.Sprintf("(declare-const %s String)", n))
-			if asciiConstraint {
-				s.send(fmt.Sprintf("(assert (str.in_re %s (re.* (re.range \" \" \"~\"))))", n))
+		s.declared[v] = true
+		s.send(fmt.Sprintf("(declare-const %s %s)", v.Name, sortName(v.Sort)))
+	}
+	if t.uf {
+		m := map[string]*Term{}
+		t.ufs(m)
+		for n, u := range m {
+			if s.ufs[n] {
+				continue
 			}
-		case SInt:
-			s.send(fmt.Sprintf("(declare-const %s Int)", n))
-		case SBool:
-			s.send(fmt.Sprintf("(declare-const %s Bool)", n))
+			s.ufs[n] = true
+			var as []string
+			for _, a := range u.Args {
+				as = append(as, sortName(a.Sort))
+			}
+			s.send(fmt.Sprintf("(declare-fun %s (%s) %s)", n, strings.Join(as, " "), sortName(u.Sort)))
 		}
 	}
 }
 
+// Assert adds t permanently (until the next Reset) at the current push level.
 func (s *Solver) Assert(t *Term) {
 	s.declare(t)
 	s.send("(assert " + t.smt() + ")")
 }
 
-// Check returns "sat", "unsat" or "unknown" for the current assertions plus extra.
-func (s *Solver) Check(extra *Term) string {
+func (s *Solver) Push() {
+	s.send("(push 1)")
+	s.pushed++
+}
+
+func (s *Solver) Pop() {
+	if s.pushed > 0 {
+		s.send("(pop 1)")
+		s.pushed--
+	}
+}
+
+// CheckSat runs (check-sat) on the current stack and returns "sat", "unsat" or "unknown".
+func (s *Solver) CheckSat(desc *Term) string {
 	t0 := time.Now()
 	s.Queries++
-	if extra != nil {
-		s.declare(extra)
-		s.send("(push)")
-		s.send("(assert " + extra.smt() + ")")
-	}
 	s.send("(check-sat)")
-	res := s.readLine()
-	if extra != nil {
-		s.lastPushed = true
-	}
+	res := s.readLine(time.Duration(s.timeoutMs)*time.Millisecond*3 + 5*time.Second)
 	d := time.Since(t0)
 	s.Time += d
 	if d > s.Slowest {
 		s.Slowest = d
-		if extra != nil {
-			s.SlowQ = extra.smt()
+		if desc != nil {
+			q := desc.smt()
+			if len(q) > 400 {
+				q = q[:400]
+			}
+			s.SlowQ = q
 		}
 	}
 	s.Hist[histBucket(d)]++
@@ -118,44 +195,59 @@ func (s *Solver) Check(extra *Term) string {
 		s.Unsat++
 	default:
 		s.Unknown++
-		if strings.HasPrefix(res, "(error") {
-			panic("solver error: " + res)
+		if strings.Contains(res, "error") && len(s.Errors) < 20 {
+			q := ""
+			if desc != nil {
+				q = desc.smt()
+				if len(q) > 300 {
+					q = q[:300]
+				}
+			}
+			s.Errors = append(s.Errors, s.Kind+": "+res+" on "+q)
+		}
+		if res == "<hard-timeout>" || res == "<died>" {
+			s.dead = true
 		}
 		res = "unknown"
 	}
 	return res
 }
 
-// Pop must be called after a Check(extra != nil), after an optional Model().
-func (s *Solver) Pop() {
-	if s.lastPushed {
-		s.send("(pop)")
-		s.lastPushed = false
+// Check pushes, asserts extra, and checks. The caller must Pop() afterwards (after an optional Model()).
+func (s *Solver) Check(extra *Term) string {
+	s.Push()
+	if extra != nil {
+		s.Assert(extra)
+	}
+	return s.CheckSat(extra)
+}
+
+func (s *Solver) readLine(hard time.Duration) string {
+	select {
+	case line, ok := <-s.lines:
+		if !ok {
+			return "<died>"
+		}
+		return line
+	case <-time.After(hard):
+		return "<hard-timeout>"
 	}
 }
 
-func (s *Solver) readLine() string {
-	line, err := s.out.ReadString('\n')
-	if err != nil {
-		panic("solver died: " + err.Error())
-	}
-	return strings.TrimSpace(line)
-}
-
-// Model returns values of the given variables (call right after a sat Check, before Pop).
-func (s *Solver) Model(vars []string) map[string]string {
+// Model returns values of the given variables (call right after a sat check, before Pop).
+func (s *Solver) Model(vars []*Term) map[string]string {
 	res := map[string]string{}
 	for _, v := range vars {
 		if !s.declared[v] {
 			continue
 		}
-		s.send(fmt.Sprintf("(get-value (%s))", v))
-		line := s.readLine()
-		// ((v "abc")) or ((v 12)) or ((v (- 3)))
+		s.send(fmt.Sprintf("(get-value (%s))", v.Name))
+		line := s.readLine(20 * time.Second)
+		// multi-line values are not expected for scalars/strings
 		line = strings.TrimPrefix(line, "((")
 		line = strings.TrimSuffix(line, "))")
-		line = strings.TrimPrefix(line, v)
-		res[v] = strings.TrimSpace(line)
+		line = strings.TrimPrefix(line, v.Name)
+		res[v.Name] = strings.TrimSpace(line)
 	}
 	return res
 }
@@ -163,7 +255,13 @@ func (s *Solver) Model(vars []string) map[string]string {
 func (s *Solver) Close() {
 	s.send("(exit)")
 	s.in.Close()
-	s.cmd.Wait()
+	done := make(chan struct{})
+	go func() { s.cmd.Wait(); close(done) }()
+	select {
+	case <-done:
+	case <-time.After(2 * time.Second):
+		s.cmd.Process.Kill()
+	}
 }
 
 func histBucket(d time.Duration) int {
@@ -182,7 +280,3 @@ func histBucket(d time.Duration) int {
 	}
 	return 5
 }
-
-var asciiConstraint = false
-
-var useCVC5 = false
